@@ -199,6 +199,7 @@ pub fn judge_with_cursors(model: &Model, scn: &ReadScn, log: &RunLog, o: &JudgeO
     let mut errored_next = false;
     // an injected I/O error has fired at some point of the run (including the current step)
     let mut io_seen = false;
+    let mut end_reported = false;
     for (si, step) in log.steps.iter().enumerate() {
         errored = errored_next;
         if !step.seam.faults.is_empty() {
@@ -249,6 +250,36 @@ pub fn judge_with_cursors(model: &Model, scn: &ReadScn, log: &RunLog, o: &JudgeO
         } else {
             step
         };
+        // model-independent: once a read has reported the end (in a call without fault or refusal)
+        // every later read reports the end as well, until a seek or a new reader
+        {
+            let outs: Vec<&Out> = match (&step.op, &step.out) {
+                (Op::Drain, Out::Drained(v)) => v.iter().collect(),
+                (Op::Next | Op::OwnedNext | Op::ReadSet(_) | Op::ReadSetExact(_, _), o) => vec![o],
+                _ => vec![],
+            };
+            for one in outs {
+                match one {
+                    Out::End => {
+                        if !fault && !refused {
+                            end_reported = true;
+                        }
+                    }
+                    Out::Rec(_) | Out::Err(_, _) if end_reported => {
+                        viol("end_not_sticky", format!("{}: returned {} although an earlier read had reported the end of the input (no seek in between)", at, crate::checks2::brief(one)));
+                        end_reported = false;
+                    }
+                    Out::Set(v) if end_reported && !v.is_empty() => {
+                        viol("end_not_sticky", format!("{}: returned a record set with {} records although an earlier read had reported the end of the input (no seek in between)", at, v.len()));
+                        end_reported = false;
+                    }
+                    _ => {}
+                }
+            }
+            if matches!((&step.op, &step.out), (Op::SeekRec(_) | Op::SeekSeen(_), Out::SeekOk)) || step.restarted.is_some() {
+                end_reported = false;
+            }
+        }
         // expand the step into read outcomes
         match &step.op {
             Op::Next | Op::OwnedNext => {
